@@ -10,10 +10,10 @@ import (
 
 func init() {
 	register(&Property{
-		ID:  "C02",
-		Run: runC02,
+		ID:          "C02",
+		Run:         runC02,
 		Explanation: "Exactly-once, correctly tagged, FIFO delivery (safety half): X1 the channel registered under key p is the user's channel paired with p (range pair over Opts.Inputs, AddInput arguments through the command channel); X2/X6 every receive from an input and every send on the output lies in code that only the single scheduler goroutine can execute; X3 a typestate dataflow over the SSA CFG with inlining shows that every value received with ok=true reaches exactly one successful output send before the next receive or return (v1: unless a stop clause is taken), and nothing is sent with no item in hand; X4 the table key, the Priority field of the value sent and the key passed down are the same SSA value; X5 the received value flows nowhere but into the Item field of the value sent; X7 the simplified disciplines' handlers call Handle exactly once per received item and then release its priority exactly once. Go channels are FIFO, so a single mover holding at most one item preserves per-input order.",
-		NotDecided: []string{"eventual delivery (liveness) - necessary conditions only under C06"},
+		NotDecided:  []string{"eventual delivery (liveness) - necessary conditions only under C06"},
 	})
 }
 
